@@ -499,7 +499,7 @@ func randomMapTrace(id int, seed int64, steps int, out *json.Encoder, fixed *map
 		cfg.Cmp = rng.Intn(4) == 0 && cfg.KT != "struct"
 		if (profile == "reload" || profile == "general" || profile == "versions") && cfg.Marsh == "" && rng.Intn(8) == 0 {
 			cfg.Marsh = "jsonreg"
-			cfg.NF = []string{"v1", "v1", "bin"}[rng.Intn(3)]
+			cfg.NF = "v1" // (in the binary format the element type comes from KeysLike / ValuesLike even then: nil ValuesLike means no values are kept)
 			cfg.KT, cfg.VT = "string", []string{"string", "nilstr"}[rng.Intn(2)]
 			cfg.Cmp = false
 		}
